@@ -37,3 +37,32 @@ def _m2():
             return string
         return orig(cls, string, syn)
     syntax.Writer.escape_str = classmethod(escape_str)
+
+
+@mutant('ninja_no_dollar')
+def _m3():
+    # '$' no longer doubled in ninja shell syntax
+    from bfg9000.backends.ninja import syntax
+    orig = syntax.Writer.escape_str
+
+    def escape_str(string, syn):
+        if syn in (syntax.Syntax.shell, syntax.Syntax.clean):
+            if '\n' in string:
+                raise ValueError('illegal newline')
+            return string
+        return orig(string, syn)
+    syntax.Writer.escape_str = staticmethod(escape_str)
+
+
+@mutant('ninja_path_no_colon')
+def _m4():
+    # ':' no longer escaped in ninja paths
+    from bfg9000.backends.ninja import syntax
+
+    def escape_str(string, syn):
+        if '\n' in string:
+            raise ValueError('illegal newline')
+        if syn in (syntax.Syntax.output, syntax.Syntax.input):
+            return re.sub(r'([$ ])', r'$\1', string)
+        return string.replace('$', '$$')
+    syntax.Writer.escape_str = staticmethod(escape_str)
